@@ -604,6 +604,7 @@ class EnsembleServlet(Servlet):
         fail_fast = self._fail_fast
 
         nn = len(qouts)
+        sentinel_seen = [False] * nn
         while True:
             all_empty = True
             for idx, q in enumerate(qouts):
@@ -618,11 +619,14 @@ class EnsembleServlet(Servlet):
                     all_empty = False
                     v = q.get()
                     if v is None:
-                        qout.put(v)
-                        return
-                        # TODO: this is a little problematic---should we
-                        # wait for all ensemble members to see `None`, thus
-                        # "driving out" all regular work, before exiting?
+                        # Leave only after every member has delivered its sentinel,
+                        # otherwise a member that is still working would be left
+                        # writing to a queue that nobody reads.
+                        sentinel_seen[idx] = True
+                        if all(sentinel_seen):
+                            qout.put(v)
+                            return
+                        continue
 
                     uid, y = v
                     # `y` can be an exception object or a regular result.
@@ -666,11 +670,13 @@ class EnsembleServlet(Servlet):
 
     def stop(self):
         assert self._started
+        # Send the sentinel through `_enqueue` first, so that it can not overtake
+        # inputs that are yet to be forwarded to the members.
+        self._qin.put(None)
+        self._threads[1].join()  # `_enqueue`
         for s in self._servlets:
             s.stop()
-        self._qin.put(None)
-        for t in self._threads:
-            t.join()
+        self._threads[0].join()  # `_dequeue`
         self._reset()
         self._started = False
 
@@ -746,10 +752,12 @@ class SwitchServlet(Servlet):
 
     def stop(self):
         assert self._started
-        for s in self._servlets:
-            s.stop()
+        # Send the sentinel through `_enqueue` first, so that it can not overtake
+        # inputs that are yet to be forwarded to the members.
         self._qin.put(None)
         self._thread_enqueue.join()
+        for s in self._servlets:
+            s.stop()
         self._reset()
         self._started = False
 
